@@ -815,6 +815,14 @@ class C17(Check):
             for k in range(nrec):
                 for kind in (1, 2, 3, 4, 5):
                     cells.append({"kind": "kindcell", "file": f, "rec": k, "to": kind})
+                # structure-PRESERVING damage of the same record: deleted, re-serialised with another length, present twice (second copy unreadable)
+                # (quick: every record deleted and re-serialised with 3 lengths, the first three records of each file duplicated; thorough: more)
+                cells.append({"kind": "kindcell", "file": f, "rec": k, "op": "del", "to": 0})
+                for L in ((0, 7, 9) if tier == "quick" else (0, 1, 7, 8, 9, 17, 300)):
+                    cells.append({"kind": "kindcell", "file": f, "rec": k, "op": "vallen", "to": L})
+                if k < 3 or tier != "quick":
+                    for v in (0, 1, 2, 3):
+                        cells.append({"kind": "kindcell", "file": f, "rec": k, "op": "dupbad", "to": v})
         mechs = ["CKM_AES_ECB", "CKM_AES_CBC", "CKM_AES_CBC_PAD", "CKM_AES_CTR", "CKM_AES_GCM", "CKM_DES3_ECB", "CKM_DES3_CBC", "CKM_DES3_CBC_PAD"]
         for m in mechs:
             for d in ("enc", "dec"):
@@ -894,9 +902,41 @@ class C17(Check):
             b = bytearray(open(path, "rb").read())
             recs = walk_records(bytes(b))
             r0 = recs[prog["rec"] % len(recs)]
-            if int.from_bytes(b[r0[1]:r0[1] + 8], "big") == prog["to"]:
-                return
-            b[r0[1]:r0[1] + 8] = int(prog["to"]).to_bytes(8, "big")
+            op = prog.get("op", "kind")
+            kind0 = int.from_bytes(b[r0[1]:r0[1] + 8], "big")
+            if op == "kind":
+                if kind0 == prog["to"]:
+                    return
+                b[r0[1]:r0[1] + 8] = int(prog["to"]).to_bytes(8, "big")
+            elif op == "del":
+                # a well-formed file that lacks one attribute (e.g. a token without serial, a key without value)
+                b = b[:r0[0]] + b[r0[3]:]
+            elif op == "vallen":
+                # a well-formed file in which one byte string has another length (re-serialised consistently)
+                if kind0 != 3:
+                    return
+                old = bytes(b[r0[2] + 8:r0[3]]) or b"\x00"
+                L = prog["to"]
+                if L == len(b[r0[2] + 8:r0[3]]):
+                    return
+                new_ = (old * (L // len(old) + 1))[:L]
+                b = b[:r0[2]] + L.to_bytes(8, "big") + new_ + b[r0[3]:]
+            elif op == "dupbad":
+                # the attribute type occurs a second time at the end of the file: as a complete copy, cut short, with an unknown kind, with an
+                # over-long length field
+                rec = bytes(b[r0[0]:r0[3]])
+                v = prog["to"]
+                if v == 0:
+                    tail = rec
+                elif v == 1:
+                    tail = rec[:-1]
+                elif v == 2:
+                    tail = rec[:8] + (255).to_bytes(8, "big") + rec[16:]
+                else:
+                    if r0[2] is None:
+                        return
+                    tail = rec[:16] + (1 << 40).to_bytes(8, "big") + rec[24:]
+                b = b + tail
             open(path, "wb").write(bytes(b))
             w = sb.worker()
             try:
